@@ -21,6 +21,7 @@ pub fn general_alphabet() -> Vec<Mac> {
         c(Call, ID, 1, 50_000),
         c(Call, BSD, 0, 50_000),
         c(Call, BNEST, 0, 100_000),
+        c(Call, BSDREV, 0, 100_000),
         c(Call, BLOG, 0, 50_000),
         c(Call, BWRITE, 0, 0),
         c(Call, AUTH, 0, 50_000),
@@ -221,7 +222,7 @@ pub fn alphabet_for(spec: SpecId, alpha: &[Mac]) -> Vec<Mac> {
 pub fn addr_name(a: Address) -> String {
     let names = [
         (SENDER, "SENDER"), (COINBASE, "COINBASE"), (A, "A"), (BOK, "BOK"), (BREV, "BREV"), (BHALT, "BHALT"), (BWRITE, "BWRITE"), (BSD, "BSD"),
-        (BLOG, "BLOG"), (BBURN, "BBURN"), (PROBE, "PROBE"), (BRET64, "BRET64"), (BNEST, "BNEST"), (RICH, "RICH"), (DUST, "DUST"), (STOR, "STOR"),
+        (BLOG, "BLOG"), (BBURN, "BBURN"), (PROBE, "PROBE"), (BRET64, "BRET64"), (BNEST, "BNEST"), (BSDREV, "BSDREV"), (RICH, "RICH"), (DUST, "DUST"), (STOR, "STOR"),
         (EMPTY, "EMPTY"), (AUTH, "AUTH"),
     ];
     names.iter().find(|(x, _)| *x == a).map(|(_, n)| n.to_string()).unwrap_or_else(|| format!("{a}"))
